@@ -101,7 +101,8 @@ func isNonPrintable(c rune) bool {
 	return c >= 0 && c <= 8 || c == 0xB || c >= 0xE && c <= 0x1F || c == 0x7F
 }
 
-func validEscape(a, b rune) bool { return a == '\\' && b != '\n' && b != -1 }
+// validEscape: CSS Syntax 4.3.8 (EOF after the backslash is a valid escape that yields U+FFFD).
+func validEscape(a, b rune) bool { return a == '\\' && b != '\n' }
 
 func (z *tokenizer) wouldStartIdent(o int) bool {
 	a, b, c := z.peek(o), z.peek(o+1), z.peek(o+2)
